@@ -31,6 +31,8 @@ class Profile:
         self.virtual = False
         self.before_start = 0.5      # probability that the first message is injected before the daemon starts
         self.raw_garbage = 0.0       # probability per quiescent point of hostile bytes on a report channel
+        self.max_idle_advances = 0   # >0: give up (TERM, no drain required) after so many clock steps without a command
+        self.qq_fail = 0.0           # probability that one of the daemon's own injections (bounces) fails
         self.__dict__.update(kw)
 
 
@@ -65,11 +67,21 @@ class History:
                             trace="mo" if p.gate_m else "m", plan=plan, oracles=self.oracles, label=label)
         if p.gate_m:
             self.sim.gate_progs = "qmail-send,qmail-clean"
+        if p.qq_fail:
+            seqf = self.sim.home + "/qqseq"
+            with open(seqf, "w") as f:
+                for _ in range(60):
+                    f.write((rng.choice(["exit=53", "exit=51", "sig=9", "exit=31", "err=Zqq says later", "stop=10,exit=54"])
+                             if rng.random() < p.qq_fail else "tee") + "\n")
+            self.sim.daemon_env_extra["NQV_QQ_SEQ"] = seqf
         self.nmsg = 0
         self.term_pending = False
         self.finished = False
         self.crashes = 0
         self.gen_start = 0
+        self.idle_adv = 0
+        self.last_ncmd = 0
+        self.stuck = False
         self.log = []
 
     # effective limits for oracles
@@ -230,6 +242,18 @@ class History:
                     cmd = sim.outstanding[k]
                     sim.report(cmd, self.choose_report(cmd))
                 else:
+                    ncmd = sum(1 for e in sim.events if e["kind"] == "cmd")
+                    if ncmd == self.last_ncmd:
+                        self.idle_adv += 1
+                    else:
+                        self.idle_adv = 0
+                        self.last_ncmd = ncmd
+                    if p.max_idle_advances and self.idle_adv >= p.max_idle_advances:
+                        self.stuck = True
+                        self.term_pending = True
+                        self.finished = True
+                        sim.signal("TERM")
+                        continue
                     step = T
                     r = rng.random()
                     if r < 0.1 and T > 2:
